@@ -425,6 +425,17 @@ def tr_visit_function(tc):
         leftover = leftover.replace(s, "")
     if "fun.changes" in leftover or "fun.depends" in leftover:
         raise TranslateError("TypeChecker::visitFunction touches changes/depends in an unrecognised way")
+    # the analysis part (from the first collector to the end) must consist of the known statements only, unconditionally executed:
+    # a collector or an erase loop wrapped in a condition is not something the flags above can express
+    if "CollectChangesVisitor" in body or "CollectDependenciesVisitor" in body:
+        tail = body[min(i for i in (body.find("CollectChangesVisitor"), body.find("CollectDependenciesVisitor")) if i >= 0):]
+        for s in ("CollectChangesVisitor visitor(fun.changes);", "fun.body->accept(&visitor);", "CollectDependenciesVisitor visitor2(fun.depends);",
+                  "fun.body->accept(&visitor2);", "for (const auto& var : fun.variables)", "fun.changes.erase(var.uid);", "fun.depends.erase(var.uid);",
+                  "size_t parameters = fun.uid.get_type().size() - 1;", "for (uint32_t i = 0; i < parameters; i++)",
+                  "fun.changes.erase(fun.body->get_frame()[i]);", "fun.depends.erase(fun.body->get_frame()[i]);"):
+            tail = tail.replace(s, "", 1)
+        if tail.replace("{", "").replace("}", "").strip():
+            raise TranslateError("TypeChecker::visitFunction: unrecognised code around the changes/depends collectors: %r" % tail.strip()[:200])
     return f
 
 
